@@ -126,3 +126,420 @@ Proof.
   intros Hc f s. destruct (r_ok (h_build h f v s)) as [s'|] eqn:E; [|reflexivity].
   destruct (build_ok_unfold _ _ _ _ _ E) as [t Hu]. rewrite (cyclic_no_unfold _ _ Hc) in Hu. discriminate.
 Qed.
+
+(** * The detector *)
+Lemma detect_S h rem vis v : detect h (S rem) vis v =
+    match v with
+    | HArr a | HStruct a =>
+      match get_list h a with
+      | [] => (true, false)
+      | x :: _ => if mem_addr (false, a) vis then (false, true) else detect h rem ((false, a) :: vis) x
+      end
+    | HMap a =>
+      if mem_addr (true, a) vis then (false, true) else
+      match get_map h a with
+      | [] => (true, false)
+      | es => fold_right (fun e acc => dunion (detect h rem ((true, a) :: vis) (snd e)) acc) (false, false) es
+      end
+    | _ => (true, false)
+    end.
+Proof. reflexivity. Qed.
+
+(** some answer is always possible *)
+Lemma detect_inhabited h : forall rem vis v, fst (detect h rem vis v) || snd (detect h rem vis v) = true.
+Proof.
+  induction rem as [|rem IH]; intros vis v; [reflexivity|]. rewrite detect_S.
+  destruct v as [p|a|a|a|]; try reflexivity.
+  - destruct (get_list h a); [reflexivity|]. destruct (mem_addr _ vis); [reflexivity|apply IH].
+  - destruct (get_list h a); [reflexivity|]. destruct (mem_addr _ vis); [reflexivity|apply IH].
+  - destruct (mem_addr _ vis); [reflexivity|]. destruct (get_map h a) as [|e es]; [reflexivity|].
+    cbn [fold_right]. pose proof (IH ((true, a) :: vis) (snd e)) as H.
+    unfold dunion. cbn [fst snd]. destruct (detect h rem ((true, a) :: vis) (snd e)) as [x y]. cbn [fst snd] in *.
+    destruct x, y; cbn in *; try reflexivity; try discriminate; destruct (fst _); reflexivity.
+Qed.
+
+(** [endless h n v]: every first-element path from [v] (element 0 of arrays and structs; ANY entry
+    of a map, since any entry can be the first in Go's iteration order) goes on for [n] steps. *)
+Fixpoint endless (h : heap) (n : nat) (v : hval) : Prop :=
+  match n with
+  | O => True
+  | S n' =>
+    match v with
+    | HArr a | HStruct a => match get_list h a with [] => False | x :: _ => endless h n' x end
+    | HMap a => get_map h a <> [] /\ forall e, In e (get_map h a) -> endless h n' (snd e)
+    | _ => False
+    end
+  end.
+
+Lemma fold_dunion_all_true {A} (g : A -> dset) l : l <> [] -> (forall e, In e l -> g e = (false, true)) ->
+  fold_right (fun e acc => dunion (g e) acc) (false, false) l = (false, true).
+Proof.
+  induction l as [|e l IH]; intros Hne H; [congruence|]. cbn [fold_right].
+  rewrite (H e (or_introl eq_refl)). destruct l as [|e' l']; [reflexivity|].
+  rewrite IH; [reflexivity|discriminate|]. intros x Hx. apply H. right. exact Hx.
+Qed.
+
+(** a value all of whose first-element paths are longer than the depth limit (in particular: lead
+    into a cycle) is answered "true" by the detector, whatever the map order *)
+Lemma detect_endless h : forall rem vis v, endless h rem v -> detect h rem vis v = (false, true).
+Proof.
+  induction rem as [|rem IH]; intros vis v He; [reflexivity|]. rewrite detect_S. cbn [endless] in He.
+  destruct v as [p|a|a|a|]; try tauto.
+  - destruct (get_list h a); [tauto|]. destruct (mem_addr _ vis); [reflexivity|apply IH; exact He].
+  - destruct (get_list h a); [tauto|]. destruct (mem_addr _ vis); [reflexivity|apply IH; exact He].
+  - destruct He as [Hne Hall]. destruct (mem_addr _ vis); [reflexivity|].
+    destruct (get_map h a) as [|e es] eqn:Em; [congruence|].
+    apply (fold_dunion_all_true (fun e => detect h rem ((true, a) :: vis) (snd e))); [discriminate|].
+    intros x Hx. apply IH. apply Hall. exact Hx.
+Qed.
+
+Definition only_circular (r : rs) : Prop := r = mkRs None [ECircular] false.
+
+Theorem first_element_cycle_rejected h v : endless h (S max_struct_depth) v ->
+  forall base f s, only_circular (h_serialize h base (S f) v s) /\ only_circular (h_build h (S f) v s).
+Proof.
+  intros He base f s. unfold only_circular. cbn [h_serialize h_build]. unfold guarded, detect_top.
+  rewrite (detect_endless _ _ _ _ He). split; reflexivity.
+Qed.
+
+(** a cycle closed through first elements is endless *)
+Inductive fnext (h : heap) : hval -> hval -> Prop :=
+| fnext_arr a x r : get_list h a = x :: r -> fnext h (HArr a) x
+| fnext_struct a x r : get_list h a = x :: r -> fnext h (HStruct a) x
+| fnext_map a e : get_map h a <> [] -> In e (get_map h a) -> fnext h (HMap a) (snd e).
+
+(** all first-element paths from [v] stay inside [S], and every member of [S] has a successor *)
+Definition first_closed (h : heap) (S : hval -> Prop) : Prop :=
+  forall v, S v -> (exists w, fnext h v w) /\ forall w, fnext h v w -> S w.
+
+Lemma first_closed_endless h S : first_closed h S -> forall n v, S v -> endless h n v.
+Proof.
+  intros Hc. induction n as [|n IH]; intros v Hv; [exact I|].
+  destruct (Hc v Hv) as [[w Hw] Hall]. cbn [endless].
+  destruct Hw as [a x r E|a x r E|a e Hne He].
+  - rewrite E. apply IH. apply Hall. econstructor. exact E.
+  - rewrite E. apply IH. apply Hall. econstructor. exact E.
+  - split; [exact Hne|]. intros e' He'. apply IH. apply Hall. constructor; assumption.
+Qed.
+
+(** * The witness w = [1, w] *)
+Definition W_heap : heap := [OList [HPrim (PInt 1); HArr 0]].
+Definition W : hval := HArr 0.
+
+Lemma W_cyclic : cyclic W_heap W.
+Proof.
+  exists W. split; [constructor|]. apply (reach1_step _ W W W); [|constructor].
+  cbn. right. left. reflexivity.
+Qed.
+
+Lemma W_not_detected : detect_top W_heap W = (true, false).
+Proof. vm_compute. reflexivity. Qed.
+
+Definition only_oof (r : rs) : Prop := r_ok r = None /\ r_errs r = [] /\ r_oof r = true.
+
+Lemma guarded_undetected h v body : detect_top h v = (true, false) ->
+  guarded h v body = mkRs (r_ok body) (r_errs body) (r_oof body).
+Proof. intro E. unfold guarded. rewrite E. reflexivity. Qed.
+
+Lemma prim_not_detected h p : detect_top h (HPrim p) = (true, false).
+Proof. reflexivity. Qed.
+
+Lemma only_oof_guarded h v body : detect_top h v = (true, false) -> only_oof body -> only_oof (guarded h v body).
+Proof. intros E H. rewrite (guarded_undetected _ _ _ E). exact H. Qed.
+
+Lemma only_oof_bind_l a k : only_oof a -> only_oof (rs_bind a k).
+Proof. intros [H1 [H2 H3]]. unfold rs_bind. rewrite H1. repeat split; assumption. Qed.
+
+Lemma only_oof_bind_ret s k : only_oof (k s) -> only_oof (rs_bind (rs_ret s) k).
+Proof. intros [H1 [H2 H3]]. unfold rs_bind, only_oof. cbn [r_ok r_errs r_oof rs_ret app orb]. repeat split; assumption. Qed.
+
+(** BuildParamToNative on the witness: no amount of stack suffices *)
+Theorem build_witness_diverges : forall f s, only_oof (h_build W_heap f W s).
+Proof.
+  induction f as [|f IH]; intro s; [repeat split|].
+  cbn [h_build]. apply (only_oof_guarded _ _ _ W_not_detected).
+  unfold W. cbn [build_body]. change (get_list W_heap 0) with [HPrim (PInt 1); HArr 0%nat].
+  cbn [ser_list]. fold W.
+  destruct f as [|f']; [repeat split|].
+  set (s1 := s ++ _).
+  assert (E1 : h_build W_heap (S f') (HPrim (PInt 1)) s1 = rs_ret (s1 ++ nv_write_varbytes (neo_of_Z 1))).
+  { cbn [h_build]. rewrite (guarded_undetected _ _ _ (prim_not_detected _ _)). reflexivity. }
+  rewrite E1. apply only_oof_bind_ret. apply only_oof_bind_l. apply IH.
+Qed.
+
+(** Serialize on the witness: every level appends 5 bytes, and nothing stops the recursion before
+    the sink exceeds MAX_BYTEARRAY_SIZE *)
+Theorem serialize_witness_deep base : forall f s,
+  base + N.of_nat (length s) + 5 * N.of_nat f <= max_ser_size -> only_oof (h_serialize W_heap base f W s).
+Proof.
+  induction f as [|f IH]; intros s Hsz; [repeat split|].
+  cbn [h_serialize]. apply (only_oof_guarded _ _ _ W_not_detected).
+  unfold W. cbn [ser_body]. change (get_list W_heap 0) with [HPrim (PInt 1); HArr 0%nat].
+  cbn [ser_list length]. fold W. apply only_oof_bind_l.
+  destruct f as [|f']; [repeat split|].
+  set (s1 := s ++ _).
+  assert (L1 : length s1 = (length s + 2)%nat) by (unfold s1; rewrite app_length; reflexivity).
+  assert (E1 : h_serialize W_heap base (S f') (HPrim (PInt 1)) s1 = rs_ret (s1 ++ enc_prim (PInt 1))).
+  { cbn [h_serialize]. rewrite (guarded_undetected _ _ _ (prim_not_detected _ _)). cbn [ser_body r_ok r_errs r_oof].
+    unfold check_size. rewrite app_length. change (length (enc_prim (PInt 1))) with 3%nat.
+    destruct (N.ltb_spec max_ser_size (base + N.of_nat (length s1 + 3))); [lia|]. reflexivity. }
+  rewrite E1. apply only_oof_bind_ret. apply only_oof_bind_l. apply IH.
+  rewrite app_length. change (length (enc_prim (PInt 1))) with 3%nat. lia.
+Qed.
+
+(** * What bounds the recursion of Serialize on an arbitrary heap value *)
+(** the first-element chain of arrays/structs from [v] (the only way Serialize nests calls without
+    completing one in between) ends within [n] steps *)
+Fixpoint schain (h : heap) (n : nat) (v : hval) {struct n} : bool :=
+  match v with
+  | HArr a | HStruct a =>
+    match get_list h a with
+    | [] => true
+    | x :: _ => match n with O => false | S n' => schain h n' x end
+    end
+  | _ => true
+  end.
+
+Lemma schain_0 h v : schain h 0 v = match v with
+  | HArr a | HStruct a => match get_list h a with [] => true | _ => false end | _ => true end.
+Proof. destruct v; reflexivity. Qed.
+Lemma schain_S h n v : schain h (S n) v = match v with
+  | HArr a | HStruct a => match get_list h a with [] => true | x :: _ => schain h n x end | _ => true end.
+Proof. destruct v; reflexivity. Qed.
+
+(** when the detector can answer false, that chain is shorter than the depth limit *)
+Lemma detect_schain h : forall rem vis v, fst (detect h rem vis v) = true -> exists n, rem = S n /\ schain h n v = true.
+Proof.
+  induction rem as [|rem IH]; intros vis v H; [discriminate|]. exists rem. split; [reflexivity|].
+  rewrite detect_S in H. destruct v as [p|a|a|a|]; try (destruct rem; reflexivity).
+  - destruct (get_list h a) as [|x r] eqn:E; [destruct rem; cbn; rewrite E; reflexivity|].
+    destruct (mem_addr _ vis); [discriminate|]. destruct (IH _ _ H) as [n [-> Hn]].
+    rewrite schain_S, E. exact Hn.
+  - destruct (get_list h a) as [|x r] eqn:E; [destruct rem; cbn; rewrite E; reflexivity|].
+    destruct (mem_addr _ vis); [discriminate|]. destruct (IH _ _ H) as [n [-> Hn]].
+    rewrite schain_S, E. exact Hn.
+Qed.
+
+Lemma r_oof_guarded h v body : r_oof (guarded h v body) = if fst (detect_top h v) then r_oof body else false.
+Proof. unfold guarded. destruct (snd (detect_top h v)), (fst (detect_top h v)); reflexivity. Qed.
+
+Lemma r_oof_check_size base s : r_oof (check_size base s) = false.
+Proof. unfold check_size. destruct (_ <? _); reflexivity. Qed.
+
+Section Termination.
+  Variables (h : heap) (base : N).
+  Let sz (s : bytes) : N := base + N.of_nat (length s).
+  Let D : N := N.of_nat max_struct_depth.
+
+  (** [good f v s]: fuel [f] is enough for a call on [v] with sink [s]: either the sink is within
+      the limit and the fuel covers two bytes per level up to the limit plus a detector depth, or the
+      sink is already over the limit and the fuel covers the remaining first-element chain *)
+  Definition good (f : nat) (v : hval) (s : bytes) : Prop :=
+    (sz s <= max_ser_size /\ max_ser_size + 2 * D + 4 <= 2 * N.of_nat f + sz s) \/
+    (max_ser_size < sz s /\ exists n, (fst (detect_top h v) = true -> schain h n v = true) /\ (n + 1 < f)%nat).
+
+  Lemma ok_size f v s s' : r_ok (h_serialize h base f v s) = Some s' -> sz s' <= max_ser_size /\ sz s <= sz s'.
+  Proof.
+    intro E. destruct (serialize_enc _ _ _ _ _ _ E) as [t [_ [-> Hs]]]. unfold sz. rewrite app_length in *. lia.
+  Qed.
+
+  Lemma over_limit_not_ok f v s : max_ser_size < sz s -> r_ok (h_serialize h base f v s) = None.
+  Proof.
+    intro H. destruct (r_ok (h_serialize h base f v s)) as [s'|] eqn:E; [|reflexivity].
+    apply ok_size in E. lia.
+  Qed.
+
+  (** the loops: every element after the first is entered right after a completed call, i.e. with
+      the sink within the limit *)
+  Lemma ser_list_no_oof f :
+    (forall v s, good f v s -> r_oof (h_serialize h base f v s) = false) ->
+    forall l s, (forall x r, l = x :: r -> good f x s) ->
+      (forall x s', In x l -> sz s <= sz s' -> sz s' <= max_ser_size -> good f x s') ->
+      r_oof (ser_list (h_serialize h base f) l s) = false.
+  Proof.
+    intros IH. induction l as [|x l IHl]; intros s Hfirst Hrest; [reflexivity|].
+    cbn [ser_list]. rewrite r_oof_bind. rewrite (IH _ _ (Hfirst _ _ eq_refl)). cbn [orb].
+    destruct (r_ok (h_serialize h base f x s)) as [s1|] eqn:E; [|reflexivity].
+    destruct (ok_size _ _ _ _ E) as [H1 H2].
+    apply IHl.
+    - intros y r ->. apply Hrest; [right; left; reflexivity|exact H2|exact H1].
+    - intros y s' Hy Hle Hmax. apply Hrest; [right; exact Hy|lia|exact Hmax].
+  Qed.
+
+  Lemma good_prim_any f p s : (1 <= f)%nat -> r_oof (h_serialize h base f (HPrim p) s) = false.
+  Proof.
+    destruct f as [|f]; [lia|]. intros _. cbn [h_serialize]. rewrite r_oof_guarded.
+    destruct (fst _); [|reflexivity]. cbn [ser_body]. apply r_oof_check_size.
+  Qed.
+
+  Lemma ser_entries_no_oof f :
+    (forall v s, good f v s -> r_oof (h_serialize h base f v s) = false) -> (1 <= f)%nat ->
+    forall l s, (forall x s', In x l -> sz s <= sz s' -> sz s' <= max_ser_size -> good f (snd x) s') ->
+      r_oof (ser_entries (h_serialize h base f) l s) = false.
+  Proof.
+    intros IH Hf. induction l as [|e l IHl]; intros s Hrest; [reflexivity|].
+    cbn [ser_entries]. rewrite r_oof_bind. rewrite good_prim_any by exact Hf. cbn [orb].
+    destruct (r_ok (h_serialize h base f (HPrim (fst e)) s)) as [s1|] eqn:E; [|reflexivity].
+    destruct (ok_size _ _ _ _ E) as [H1 H2].
+    rewrite r_oof_bind. rewrite (IH _ _ (Hrest e s1 (or_introl eq_refl) H2 H1)). cbn [orb].
+    destruct (r_ok (h_serialize h base f (snd e) s1)) as [s2|] eqn:E2; [|reflexivity].
+    destruct (ok_size _ _ _ _ E2) as [H3 H4].
+    apply IHl. intros y s' Hy Hle Hmax. apply Hrest; [right; exact Hy|lia|exact Hmax].
+  Qed.
+
+  Lemma good_within f x s s' : sz s <= max_ser_size -> max_ser_size + 2 * D + 4 <= 2 * N.of_nat (S f) + sz s ->
+    sz s + 2 <= sz s' -> sz s' <= max_ser_size -> good f x s'.
+  Proof. intros. left. split; [assumption|lia]. Qed.
+
+  Lemma serialize_no_oof : forall f v s, good f v s -> r_oof (h_serialize h base f v s) = false.
+  Proof.
+    induction f as [|f IH]; intros v s Hg.
+    - exfalso. destruct Hg as [[H1 H2]|[_ [n [_ Hn]]]]; [|lia]. unfold D in H2. lia.
+    - cbn [h_serialize]. rewrite r_oof_guarded. destruct (fst (detect_top h v)) eqn:Ed; [|reflexivity].
+      destruct (detect_schain _ _ _ _ Ed) as [n0 [En0 Hn0]]. injection En0 as <-.
+      (* the chain bound available for [v], and how much fuel is left relative to it *)
+      assert (Hchain : exists n, schain h n v = true /\ (n + 1 <= f)%nat /\
+                (max_ser_size < sz s \/ (sz s <= max_ser_size /\ max_ser_size + 2 * D + 4 <= 2 * N.of_nat (S f) + sz s))).
+      { destruct Hg as [[H1 H2]|[H1 [n [Hn Hlt]]]].
+        - exists max_struct_depth. split; [exact Hn0|]. split; [unfold D in H2; lia|]. right. split; assumption.
+        - exists n. split; [apply Hn; exact Ed|]. split; [lia|]. left. exact H1. }
+      destruct Hchain as [n [Hn [Hnf Hreg]]].
+      assert (Hf1 : (1 <= f)%nat) by lia.
+      (* a first element entered with sink [s1] that extends [s] by at least two bytes *)
+      assert (Hfirst : forall a x r s1, (v = HArr a \/ v = HStruct a) -> get_list h a = x :: r -> sz s + 2 <= sz s1 -> good f x s1).
+      { intros a x r s1 Hv El Hs1.
+        assert (Hx : exists n', n = S n' /\ schain h n' x = true).
+        { destruct n as [|n']; [rewrite schain_0 in Hn; destruct Hv as [->| ->]; rewrite El in Hn; discriminate|].
+          exists n'. split; [reflexivity|]. rewrite schain_S in Hn. destruct Hv as [->| ->]; rewrite El in Hn; exact Hn. }
+        destruct Hx as [n' [-> Hn']].
+        destruct (N.leb_spec (sz s1) max_ser_size) as [Hin|Hout].
+        - destruct Hreg as [Hover|[Hs Hfuel]]; [lia|]. apply (good_within f x s s1); assumption.
+        - right. split; [exact Hout|]. exists n'. split; [intros _; exact Hn'|lia]. }
+      assert (Hlater : forall x s1 s', sz s + 2 <= sz s1 -> sz s1 <= sz s' -> sz s' <= max_ser_size -> good f x s').
+      { intros x s1 s' H1 H2 H3. destruct Hreg as [Hover|[Hs Hfuel]]; [lia|]. apply (good_within f x s s'); try assumption; lia. }
+      destruct v as [p|a|a|a|]; cbn [ser_body].
+      + apply r_oof_check_size.
+      + rewrite r_oof_bind. set (s1 := s ++ _).
+        assert (Hs1 : sz s + 2 <= sz s1).
+        { unfold s1, sz. rewrite app_length. cbn [length]. pose proof (nv_write_varuint_length (N.of_nat (length (get_list h a)))). lia. }
+        rewrite ser_list_no_oof; [|exact IH| |].
+        * cbn [orb]. destruct (r_ok _); [apply r_oof_check_size|reflexivity].
+        * intros x r El. apply (Hfirst a x r s1); [left; reflexivity|exact El|exact Hs1].
+        * intros x s' _ Hle Hmax. apply (Hlater x s1 s'); assumption.
+      + rewrite r_oof_bind. set (s1 := s ++ _).
+        assert (Hs1 : sz s + 2 <= sz s1).
+        { unfold s1, sz. rewrite app_length. cbn [length]. pose proof (nv_write_varuint_length (N.of_nat (length (get_list h a)))). lia. }
+        rewrite ser_list_no_oof; [|exact IH| |].
+        * cbn [orb]. destruct (r_ok _); [apply r_oof_check_size|reflexivity].
+        * intros x r El. apply (Hfirst a x r s1); [right; reflexivity|exact El|exact Hs1].
+        * intros x s' _ Hle Hmax. apply (Hlater x s1 s'); assumption.
+      + rewrite r_oof_bind. set (s1 := s ++ _).
+        assert (Hs1 : sz s + 2 <= sz s1).
+        { unfold s1, sz. rewrite app_length. cbn [length]. pose proof (nv_write_varuint_length (N.of_nat (length (get_map h a)))). lia. }
+        rewrite ser_entries_no_oof; [|exact IH|exact Hf1|].
+        * cbn [orb]. destruct (r_ok _); [apply r_oof_check_size|reflexivity].
+        * intros x s' _ Hle Hmax. apply (Hlater (snd x) s1 s'); assumption.
+      + reflexivity.
+  Qed.
+
+  (** Fuel that suffices for ANY heap value from an empty sink (after [base] bytes): half the
+      size limit, plus the detector depth, plus three. *)
+  Definition ser_fuel : nat := N.to_nat (max_ser_size / 2) + max_struct_depth + 3.
+
+  Theorem serialize_terminates v : r_oof (h_serialize h base ser_fuel v []) = false.
+  Proof.
+    apply serialize_no_oof. unfold good, ser_fuel.
+    destruct (N.leb_spec (sz []) max_ser_size) as [Hin|Hout].
+    - left. split; [exact Hin|]. unfold D. lia.
+    - right. split; [exact Hout|]. exists max_struct_depth. split; [|lia].
+      intro Ed. destruct (detect_schain _ _ _ _ Ed) as [n0 [En0 Hn0]]. injection En0 as <-. exact Hn0.
+  Qed.
+End Termination.
+
+(** * Every call has some outcome; hence on a cyclic value every possible run of Serialize ends with
+      an error (given the stack for [ser_fuel] nested calls) *)
+Lemma inhabited_ret s : rs_inhabited (rs_ret s).
+Proof. left. discriminate. Qed.
+Lemma inhabited_fail e : rs_inhabited (rs_fail e).
+Proof. right. left. discriminate. Qed.
+Lemma inhabited_oof : rs_inhabited rs_oof.
+Proof. right. right. reflexivity. Qed.
+
+Lemma inhabited_bind a k : rs_inhabited a -> (forall s, rs_inhabited (k s)) -> rs_inhabited (rs_bind a k).
+Proof.
+  intros Ha Hk. unfold rs_bind. destruct (r_ok a) as [s|] eqn:E; [|exact Ha].
+  destruct (Hk s) as [H|[H|H]]; [left; exact H| |].
+  - right. left. cbn. intro C. apply app_eq_nil in C. tauto.
+  - right. right. cbn. rewrite H. apply orb_true_r.
+Qed.
+
+Lemma inhabited_check_size base s : rs_inhabited (check_size base s).
+Proof. unfold check_size. destruct (_ <? _); [apply inhabited_fail|apply inhabited_ret]. Qed.
+
+Lemma inhabited_guarded h v body : rs_inhabited body -> rs_inhabited (guarded h v body).
+Proof.
+  intro Hb. unfold guarded. pose proof (detect_inhabited h (S max_struct_depth) [] v) as Hd. fold (detect_top h v) in Hd.
+  destruct (snd (detect_top h v)).
+  - right. left. cbn. discriminate.
+  - destruct (fst (detect_top h v)); [|discriminate].
+    destruct Hb as [H|[H|H]]; [left; exact H|right; left; exact H|right; right; exact H].
+Qed.
+
+Lemma inhabited_ser_list rec l : (forall x s, rs_inhabited (rec x s)) -> forall s, rs_inhabited (ser_list rec l s).
+Proof.
+  intro Hr. induction l as [|x l IH]; intro s; cbn [ser_list]; [apply inhabited_ret|].
+  apply inhabited_bind; [apply Hr|exact IH].
+Qed.
+
+Lemma inhabited_ser_entries rec l : (forall x s, rs_inhabited (rec x s)) -> forall s, rs_inhabited (ser_entries rec l s).
+Proof.
+  intro Hr. induction l as [|x l IH]; intro s; cbn [ser_entries]; [apply inhabited_ret|].
+  apply inhabited_bind; [apply Hr|]. intro s1. apply inhabited_bind; [apply Hr|exact IH].
+Qed.
+
+Lemma serialize_inhabited h base : forall f v s, rs_inhabited (h_serialize h base f v s).
+Proof.
+  induction f as [|f IH]; intros v s; [apply inhabited_oof|]. cbn [h_serialize]. apply inhabited_guarded.
+  destruct v as [p|a|a|a|]; cbn [ser_body].
+  - apply inhabited_check_size.
+  - apply inhabited_bind; [apply inhabited_ser_list; exact IH|apply inhabited_check_size].
+  - apply inhabited_bind; [apply inhabited_ser_list; exact IH|apply inhabited_check_size].
+  - apply inhabited_bind; [apply inhabited_ser_entries; exact IH|apply inhabited_check_size].
+  - apply inhabited_fail.
+Qed.
+
+Lemma build_inhabited h : forall f v s, rs_inhabited (h_build h f v s).
+Proof.
+  induction f as [|f IH]; intros v s; [apply inhabited_oof|]. cbn [h_build]. apply inhabited_guarded.
+  destruct v as [[b|b|z|z]|a|a|a|]; cbn [build_body]; try apply inhabited_ret; try apply inhabited_fail;
+    apply inhabited_ser_list; exact IH.
+Qed.
+
+Theorem serialize_cyclic_rejected h base v : cyclic h v ->
+  let r := h_serialize h base (ser_fuel) v [] in
+  r_ok r = None /\ r_oof r = false /\ r_errs r <> [].
+Proof.
+  intros Hc r. assert (H1 : r_ok r = None) by (apply serialize_cyclic_never_ok; exact Hc).
+  assert (H2 : r_oof r = false) by apply serialize_terminates.
+  split; [exact H1|]. split; [exact H2|].
+  destruct (serialize_inhabited h base ser_fuel v []) as [H|[H|H]]; fold r in H; [congruence|exact H|congruence].
+Qed.
+
+(** * BuildParamToNative terminates on every value that has a finite unfolding *)
+Lemma r_oof_ser_list rec l : (forall x, In x l -> forall s, r_oof (rec x s) = false) -> forall s, r_oof (ser_list rec l s) = false.
+Proof.
+  induction l as [|x l IH]; intros H s; [reflexivity|]. cbn [ser_list]. rewrite r_oof_bind.
+  rewrite (H x (or_introl eq_refl)). cbn [orb]. destruct (r_ok _); [|reflexivity]. apply IH. intros y Hy. apply H. right. exact Hy.
+Qed.
+
+Theorem build_acyclic_terminates h : forall f v t, unfold h f v = Some t -> forall s, r_oof (h_build h f v s) = false.
+Proof.
+  induction f as [|f IH]; intros v t E s; [discriminate|].
+  cbn [h_build]. rewrite r_oof_guarded. destruct (fst _); [|reflexivity].
+  rewrite unfold_S in E.
+  destruct v as [[b|b|z|z]|a|a|a|]; cbn [build_body]; try reflexivity.
+  - destruct (map_opt (unfold h f) (get_list h a)) as [ts|] eqn:Em; [|discriminate].
+    apply r_oof_ser_list. intros x Hx s0. destruct (map_opt_in _ _ _ _ Em Hx) as [y Hy]. apply (IH _ _ Hy).
+  - destruct (map_opt (unfold h f) (get_list h a)) as [ts|] eqn:Em; [|discriminate].
+    apply r_oof_ser_list. intros x Hx s0. destruct (map_opt_in _ _ _ _ Em Hx) as [y Hy]. apply (IH _ _ Hy).
+Qed.
